@@ -137,21 +137,41 @@ def du3_additivity(ctx):
     c = ctx.facts.one(r'^<compiler::duration::DurationItem as compiler::DataItem>::calculate$')
     ctx.fn(c)
     od = {v['name']: v['discr'] for v in ctx.facts.adts['compiler::OperationType']['variants']}
-    for name, rx in (('Add', r'TimeDelta as core::ops::Add>::add$'), ('Sub', r'TimeDelta as core::ops::Sub>::sub$')):
-        sites = list(c.calls(rx))
-        if len(sites) != 1:
-            ctx.finding('DU3', 'DurationItem::calculate/%s/count' % name, 'expected one %s of durations, found %d' % (name, len(sites)), site=c.loc)
+    # the value handed back for Add / Sub IS the sum / difference of the two stored durations (result term, not call sites:
+    # a wrapper around the result - abs(), a clamp, a re-normalisation - changes what later operations see)
+    by = {v: k for k, v in od.items()}
+    seen_ops = {}
+    for a, conds in alternatives(c, c.ret_expr()):
+        items = [x for x in walk(strip(a)) if x[0] == 'aggr' and x[1].endswith('duration::DurationItem::DurationItem')]
+        if not items:
             continue
-        bid, t = sites[0]
-        conds = [(render(d), v) for (_, d, v) in c.conditions(bid)]
-        sel = [v for d, v in conds if d == 'discr(operation_type)' and not isinstance(v, tuple)]
-        l, r = render(c.expr(t['args'][0])), render(c.expr(t['args'][1]))
-        if not sel or list(sel[-1]) != [od[name]]:
-            ctx.finding('DU3', 'DurationItem::calculate/%s/arm' % name, 'durations are %s under %s' % ('added' if name == 'Add' else 'subtracted', conds[-1:]), site=t['loc'])
-        elif l != 'self.0' or 'other' not in r or 'self' in r:
-            ctx.finding('DU3', 'DurationItem::calculate/%s/operands' % name, 'computes %s %s %s' % (l[:40], name, r[:60]), site=t['loc'])
-        else:
-            ctx.ok('DU3', 'DurationItem::calculate %s: self.0 %s other' % (name, '+' if name == 'Add' else '-'), 'gamma', site=t['loc'])
+        op = None
+        for d, v in conds:
+            if render(d) == 'discr(operation_type)' and not isinstance(v, tuple) and len(v) == 1:
+                op = by.get(list(v)[0])
+        for pa, c2 in alternatives(c, items[0][2][0], _conds=conds):
+            for d, v in c2:
+                if render(d) == 'discr(operation_type)' and not isinstance(v, tuple) and len(v) == 1:
+                    op = by.get(list(v)[0])
+            sp = strip(pa)
+            want = {'Add': r'TimeDelta as core::ops::Add>::add$', 'Sub': r'TimeDelta as core::ops::Sub>::sub$'}.get(op)
+            if want is None:
+                ctx.finding('DU3', 'DurationItem::calculate/%s/arm' % op, 'DurationItem::calculate builds a duration under %s' % [cond_str(d, v)[:60] for d, v in c2][-2:], site=c.loc)
+                continue
+            seen_ops.setdefault(op, 0)
+            if sp[0] != 'call' or not re.search(want, sp[1]):
+                ctx.finding('DU3', 'DurationItem::calculate/%s/result-not-the-%s' % (op, 'sum' if op == 'Add' else 'difference'),
+                            'the duration handed back for %s is %s, not self.0 %s other' % (op, render(sp)[:100], '+' if op == 'Add' else '-'), site=c.loc)
+                continue
+            l, r = render(sp[2][0]), render(sp[2][1])
+            if l != 'self.0' or 'other' not in r or 'self' in r or 'get_duration' not in r:
+                ctx.finding('DU3', 'DurationItem::calculate/%s/operands' % op, 'computes %s %s %s' % (l[:40], op, r[:60]), site=c.loc)
+            else:
+                seen_ops[op] += 1
+                ctx.ok('DU3', 'DurationItem::calculate %s: the result is self.0 %s other.get_duration()' % (op, '+' if op == 'Add' else '-'), 'gamma', site=c.loc)
+    for name in ('Add', 'Sub'):
+        if not seen_ops.get(name):
+            ctx.finding('DU3', 'DurationItem::calculate/%s/count' % name, 'no result of DurationItem::calculate is the %s of the two durations' % ('sum' if name == 'Add' else 'difference'), site=c.loc)
     pattern_field_check(ctx, 'DU3', 'combine_durations')
 
 
